@@ -3,7 +3,9 @@
    Claim ladder (DESIGN.md 9): rung 1 = the three structural decoders invert the specification encoders.
    rung 2 = every spelling of a token that the reference writer's style denotes parses to the denoted value
    (proved for fillers, names, hexadecimal strings, integers; literal strings and reals: see notes/C02.md);
-   rung 3 = whole files (C02_full below, stated, not proved: it needs Model/Loader.v). *)
+   rung 3 = whole files: C02_loads_table_partial, C02_loads_stream_partial, C02_loads_stream_filtered_partial,
+   C02_loads_table_reflen_partial and the piece-level theorems for object streams and Length references; C02_full below
+   stays a stated Definition (notes/C02.md lists exactly what is missing). *)
 From LV Require Import Base.Bytes Base.Sx Model.Obj Model.Writer Model.Parser Model.Xref Spec.XrefSpec
   Model.ObjStm Proofs.LexProofs Proofs.XrefProofs Proofs.XrefTableProofs Proofs.ObjStmProofs
   Spec.RefWriter Proofs.SpellingProofs Proofs.LitStringProofs Proofs.SpellingProofsLit
